@@ -297,6 +297,67 @@ def judge_mutation_history(s_a, a, s_b, s_c):
     return n, None, {}
 
 
+def judge_subclass_overlap():
+    """an instance of a user-defined subclass of Exit / Key IS an exit / a key: the exit (overlap) reward is paid on exactly
+    the steps on which the exit (overlap) termination fires, and both follow the agent's next cell"""
+    from .. import reps  # noqa: F401 -- registers the harness-defined subclasses
+    n = 0
+    pairs = [(ri, ti) for ri, (rn, rkw) in enumerate(REWARDS) for ti, (tn, tkw) in enumerate(TERMS)
+             if rn == tn and rn in ('overlap', 'reach_exit') and rkw.get('object_type') == tkw.get('object_type')]
+    for obj, base in ((('VerifSubExit', 0, 0, None), 'Exit'), (('VerifSubExit', 0, U.C1, None), 'Exit'), (('VerifSubKey', 0, U.C1, None), 'Key'),
+                      (U.exit_(0), 'Exit'), (U.key(U.C1), 'Key')):
+        rows = ((U.FLOOR, obj, U.FLOOR),)
+        for x2 in (0, 1, 2):
+            s, s2 = (rows, 0, 0, 'R', NONE), (rows, 0, x2, 'R', NONE)
+            st, st2 = mkstate(s), mkstate(s2)
+            for ri, ti in pairs:
+                rn, rkw = REWARDS[ri]
+                n += 1
+                try:
+                    r = real_reward(ri, 'factory')(st, dyn.ACT['MOVE_FORWARD'], st2, rng=TW)
+                    t = real_term(ti, 'factory')(st, dyn.ACT['MOVE_FORWARD'], st2, rng=TW)
+                except Exception as e:  # noqa: BLE001
+                    return n, f'{rn}{rkw} raised {type(e).__name__} on a cell holding a {obj[0]}: {e}'
+                kind = rkw.get('object_type', 'Exit')
+                should = x2 == 1 and kind == base
+                if bool(t) != should:
+                    return n, f'termination {rn}{rkw} = {t} with the agent {"on" if x2 == 1 else "off"} a {obj[0]} (an instance of {base})'
+                if rn == 'overlap':
+                    want = rkw.get('reward_on', 1.0) if should else rkw.get('reward_off', 0.0)
+                else:
+                    want = RR.REWARD_REF[rn](s, 'MOVE_FORWARD', ((((U.FLOOR, (base, 0, obj[2], None), U.FLOOR),), 0, x2, 'R', NONE)), **rkw)
+                if not close(r, want):
+                    return n, (f'reward {rn}{rkw} = {r} with the agent {"on" if x2 == 1 else "off"} a {obj[0]} (an instance of {base}), '
+                               f'expected {want}: the reward is not paid on exactly the steps on which the termination fires ({bool(t)})')
+    return n, None
+
+
+def maze_triples():
+    """serpentine corridors: the shortest path between neighbouring corridor cells' distances is far longer than the
+    perimeter of the grid.  Yields (s, action, s2) for a step towards / away from the exit at every corridor cell"""
+    for h, w in ((9, 9), (7, 11), (11, 7), (13, 5)):
+        rows = [[U.FLOOR] * w for _ in range(h)]
+        for y in range(1, h, 2):
+            for x in range(w):
+                rows[y][x] = U.WALL
+            rows[y][(w - 1) if (y // 2) % 2 == 0 else 0] = U.FLOOR
+        path = []
+        for y in range(0, h, 2):
+            xs = list(range(w)) if (y // 2) % 2 == 0 else list(range(w - 1, -1, -1))
+            path += [(y, x) for x in xs]
+            if y + 1 < h:
+                path.append((y + 1, xs[-1]))
+        rows[path[-1][0]][path[-1][1]] = U.exit_(0)
+        rows = tuple(tuple(r) for r in rows)
+        for i in range(len(path) - 1):
+            a, b = path[i], path[i + 1]
+            yield (rows, a[0], a[1], 'F', NONE), 'MOVE_FORWARD', (rows, b[0], b[1], 'F', NONE)
+            yield (rows, b[0], b[1], 'F', NONE), 'MOVE_FORWARD', (rows, a[0], a[1], 'F', NONE)
+        # and a jump across a wall: adjacent cells whose path distance differs by a whole corridor
+        yield (rows, 0, 0, 'F', NONE), 'MOVE_FORWARD', (rows, 2, 0, 'F', NONE)
+        yield (rows, 2, 0, 'F', NONE), 'MOVE_FORWARD', (rows, 0, 0, 'F', NONE)
+
+
 def memory_universe():
     """states with a beacon and TWO exits, colours over {C1, C2}^2 (so that several exits may match the beacon)"""
     out = []
@@ -359,6 +420,11 @@ def replay(case):
         return reach.replay_trace(case, make_hooks)
     if case['kind'] == 'mutation_history':
         return judge_mutation_history(tup(case['s']), case['a'], tup(case['s2']), tup(case['s3']))[1]
+    if case['kind'] == 'maze':
+        sp_only = {('r', i) for i, (nm, _) in enumerate(REWARDS) if nm == 'getting_closer_shortest_path'}
+        return judge_triple(tup(case['s']), case['a'], tup(case['s2']), composites=False, only=sp_only)[1]
+    if case['kind'] == 'subclass_overlap':
+        return judge_subclass_overlap()[1]
     if case['kind'] == 'memory':
         return judge_triple(tup(case['s']), case['a'], tup(case['s2']), composites=False, only={('r', 22), ('r', 23), ('t', 2)})[1]
     raise ValueError(case['kind'])
@@ -405,6 +471,18 @@ def run(rep, tier, seed):
             mem += k
             if m and len([e for e in extra if e['kind'] == 'memory']) < 2:
                 extra.append({'kind': 'memory', 's': s1, 'a': 'MOVE_FORWARD', 's2': s2, 'message': m, 'sig': dict(sig, part='memory_two_exits')})
+    sp_only = {('r', i) for i, (nm, _) in enumerate(REWARDS) if nm == 'getting_closer_shortest_path'}
+    mz = 0
+    for s1, a, s2 in maze_triples():
+        k, m, sig = judge_triple(s1, a, s2, composites=False, only=sp_only)
+        mz += k
+        if m and len([e for e in extra if e['kind'] == 'maze']) < 2:
+            extra.append({'kind': 'maze', 's': s1, 'a': a, 's2': s2, 'message': m, 'sig': dict(sig, part='maze')})
+    rep.part('serpentine_mazes', evaluations=mz, shapes=['9x9', '7x11', '11x7', '13x5'])
+    k, m = judge_subclass_overlap()
+    if m:
+        extra.append({'kind': 'subclass_overlap', 'message': m, 'sig': {'part': 'subclass_overlap'}})
+    rep.part('subclass_instances', evaluations=k)
     dyn.report_fails(rep, extra, replay)
     rep.part('mutation_histories', evaluations=mh)
     rep.part('memory_reward_two_exits', evaluations=mem)
